@@ -411,8 +411,6 @@ def run(ctx):
                             e = ('unjudged', 'numpy scalar on the left: answered by NumPy before the library is consulted')
                         elif op == 'pow' and not isinstance(s, (int, np.integer)):
                             e = ('unjudged', 'non-integer power')
-                        elif op == 'pow' and isinstance(s, np.integer):
-                            e = ('unjudged', 'numpy integer power')
                         else:
                             e = exp
                         obj = operand(rng, c, ml)
